@@ -11,7 +11,7 @@ def main():
     filt = sys.argv[2] if len(sys.argv) > 2 else None
     t0 = time.time()
     for name in ctx.registry.lemma_order:
-        if filt and filt not in name: continue
+        if filt and filt not in name and not ctx.registry.lemmas[name].kw.get('assumed'): continue
         rep = ctx.verify_lemma(ctx.registry.lemmas[name])
         print('lemma', name, 'paths', rep.paths, 'unsupported', rep.unsupported, '%.2fs' % rep.secs)
     for key, c in ctx.registry.contracts.items():
